@@ -19,8 +19,8 @@ import (
 
 func init() {
 	core.Register(&core.Property{
-		ID: "C17",
-		Rule: "Percentage 0..1000 exhaustively; Frequency: quick = every multiple of 100 Hz in [100 MHz, 1 GHz] with stride 37 + every Hz in ten 100-kHz windows + boundary values up to 2^32, thorough = every multiple of 100 Hz in [0, 2.5 GHz] + every Hz in 100 MHz of windows; HEXBytes of length 0..64 (with and without 0x on input); ISO8601Time at seeded instants in years 0002..9998 with minute-granular zone offsets; the 20 request/answer payload structs and the 3 profile structs filled by a reflection-driven generator (optional pointers nil/non-nil, slices nil/empty/non-empty, RawMessage from a small JSON grammar): Marshal->Unmarshal must be semantically equal and re-Marshal byte-identical. Key envelopes: NewKeyEnvelope output vs. the harness' RFC 3394 wrap; Unwrap must succeed exactly when the model's integrity check passes over correct / wrong-KEK / bit-flipped / truncated envelopes, KEK sizes 16/24/32 (and invalid sizes). Distinct = value classes per type, struct type x optional-field pattern, envelope tamper class x KEK size.",
+		ID:          "C17",
+		Rule:        "Percentage 0..1000 exhaustively; Frequency: quick = every multiple of 100 Hz in [100 MHz, 1 GHz] with stride 37 + every Hz in ten 100-kHz windows + boundary values up to 2^32, thorough = every multiple of 100 Hz in [0, 2.5 GHz] + every Hz in 100 MHz of windows; HEXBytes of length 0..64 (with and without 0x on input); ISO8601Time at seeded instants in years 0002..9998 with minute-granular zone offsets; the 20 request/answer payload structs and the 3 profile structs filled by a reflection-driven generator (optional pointers nil/non-nil, slices nil/empty/non-empty, RawMessage from a small JSON grammar): Marshal->Unmarshal must be semantically equal and re-Marshal byte-identical. Key envelopes: NewKeyEnvelope output vs. the harness' RFC 3394 wrap; Unwrap must succeed exactly when the model's integrity check passes over correct / wrong-KEK / bit-flipped / truncated envelopes, KEK sizes 16/24/32 (and invalid sizes). Distinct = value classes per type, struct type x optional-field pattern, envelope tamper class x KEK size.",
 		Assumptions: []string{"encoding/json, encoding/hex, time of the Go standard library are trusted", "RFC 3394 key wrap as implemented in harness/spec/crypto.go (the library uses NickBall/go-aes-key-wrap)"},
 		MinEvals:    1000,
 		Run:         runC17,
@@ -47,13 +47,13 @@ func c17Freq(c *core.Ctx, hz int64) bool {
 }
 
 var (
-	tISO      = reflect.TypeOf(backend.ISO8601Time{})
-	tHEX      = reflect.TypeOf(backend.HEXBytes{})
-	tRaw      = reflect.TypeOf(json.RawMessage{})
-	tFreq     = reflect.TypeOf(backend.Frequency(0))
-	tPerc     = reflect.TypeOf(backend.Percentage(0))
-	tDLS      = reflect.TypeOf(lorawan.DLSettings{})
-	tKeyEnv   = reflect.TypeOf(backend.KeyEnvelope{})
+	tISO    = reflect.TypeOf(backend.ISO8601Time{})
+	tHEX    = reflect.TypeOf(backend.HEXBytes{})
+	tRaw    = reflect.TypeOf(json.RawMessage{})
+	tFreq   = reflect.TypeOf(backend.Frequency(0))
+	tPerc   = reflect.TypeOf(backend.Percentage(0))
+	tDLS    = reflect.TypeOf(lorawan.DLSettings{})
+	tKeyEnv = reflect.TypeOf(backend.KeyEnvelope{})
 )
 
 func randString(r *core.RNG) string {
